@@ -661,5 +661,44 @@ var Catalogue = []Program{
 	{`$round(-2.5, 0)`, "num"},
 }
 
+// Churn returns the i-th member of a family of programs that differ only in a
+// picture / pattern / layout parameter (i = 0, 1, 2, ... gives distinct
+// programs). A long run of them between two evaluations of an unrelated
+// program fills and evicts whatever remembers analysed pictures or patterns.
+func Churn(kind, i int) (text string, probe string) {
+	seps := []string{"-", "/", " ", ":", ".", "_", ", "}
+	switch kind % 4 {
+	case 0: // date pictures, parsed and rendered
+		comps := []string{"[Y0001]", "[M01]", "[D01]", "[H01]", "[m01]", "[s01]"}
+		pic, k := "", i
+		for j, c := range comps {
+			if j > 0 {
+				pic += seps[k%len(seps)]
+				k /= len(seps)
+			}
+			pic += c
+		}
+		return `$toMillis($fromMillis(1510067557000, "` + pic + `"), "` + pic + `")`, `$toMillis("2017-11-07", "[Y0001]-[M01]-[D01]")`
+	case 1: // number pictures
+		pic := "#"
+		for j := 0; j < 1+i%9; j++ {
+			pic += "0"
+		}
+		pic += "."
+		for j := 0; j < 1+(i/9)%9; j++ {
+			pic += "0"
+		}
+		for j := 0; j < (i/81)%5; j++ {
+			pic += "#"
+		}
+		return `$formatNumber(1234.5678, "` + pic + `")`, `$formatNumber(1234.5678, "#,##0.00")`
+	case 2: // regular expressions
+		return fmt.Sprintf(`$replace("abcabcabcabc", /ab{0,%d}c{1,%d}/, "-")`, i%40, 1+i/40), `$replace("abcabc", /b/, "X")`
+	default: // rendering pictures with varying widths
+		return fmt.Sprintf(`$fromMillis(1510067557121, "[Y]%s[M%s]%s[D%s]")`, seps[i%len(seps)], []string{"1", "01", "001"}[(i/7)%3], seps[(i/21)%len(seps)], []string{"1", "01", "1o"}[(i/147)%3]),
+			`$fromMillis(1510067557121, "[Y0001]-[M01]-[D01]")`
+	}
+}
+
 // HasExt reports whether the program text uses a harness extension.
 func HasExt(text string) bool { return strings.Contains(text, "$x") }
